@@ -1,7 +1,190 @@
-/- C04 property theorems (under construction) -/
+/-
+  C04 — wire format integrity: one intact record per candidate.
+  `decode sh (format sh ...) = expected`, record by record, for the line formats whose
+  framing carapace produces itself; no line break in any emitted insert / display text.
+  The sets of characters each sanitizer strips are read from /repo on every run (Gen).
+-/
 import Carapace.Model.Shells
-import Carapace.Spec.FmtOracle
+import Carapace.Spec.Decode
+import Carapace.Lemmas.Framing
+import Carapace.Lemmas.Sanitizer
 
 namespace Carapace.Props.C04
+open Carapace Carapace.Model Carapace.Spec
+
+/-! ### what the sanitizers strip (decided on the generated tables) -/
+
+theorem fish_sanitizer_shape : Replacer.isSanitizer Gen.fish_sanitizer = true := by decide
+theorem fish_strips : Replacer.lookup Gen.fish_sanitizer '\n' = some [] ∧ Replacer.lookup Gen.fish_sanitizer '\t' = some []
+    ∧ Replacer.lookup Gen.fish_sanitizer '\r' = some [] := by decide
+theorem bash_sanitizer_shape : Replacer.isSanitizer Gen.bash_sanitizer = true := by decide
+theorem bash_strips : Replacer.lookup Gen.bash_sanitizer '\n' = some [] ∧ Replacer.lookup Gen.bash_sanitizer '\r' = some [] := by decide
+theorem elvish_sanitizer_shape : Replacer.isSanitizer Gen.elvish_sanitizer = true := by decide
+theorem elvish_strips : Replacer.lookup Gen.elvish_sanitizer '\n' = some [] ∧ Replacer.lookup Gen.elvish_sanitizer '\r' = some [] := by decide
+theorem nushell_sanitizer_shape : Replacer.isSanitizer Gen.nushell_sanitizer = true := by decide
+theorem nushell_strips : Replacer.lookup Gen.nushell_sanitizer '\n' = some [] ∧ Replacer.lookup Gen.nushell_sanitizer '\r' = some [] := by decide
+theorem cmdclink_sanitizer_shape : Replacer.isSanitizer Gen.cmd_clink_sanitizer = true := by decide
+theorem cmdclink_strips : Replacer.lookup Gen.cmd_clink_sanitizer '\n' = some [] ∧ Replacer.lookup Gen.cmd_clink_sanitizer '\t' = some []
+    ∧ Replacer.lookup Gen.cmd_clink_sanitizer '\r' = some [] := by decide
+theorem zsh_sanitizer_shape : Replacer.isSanitizer Gen.zsh_sanitizer = true := by decide
+theorem zsh_strips : Replacer.lookup Gen.zsh_sanitizer '\n' = some [] ∧ Replacer.lookup Gen.zsh_sanitizer '\r' = some [] := by decide
+theorem ion_sanitizer_shape : Replacer.isSanitizer Gen.ion_sanitizer = true := by decide
+theorem ion_strips : Replacer.lookup Gen.ion_sanitizer '\n' = some [] ∧ Replacer.lookup Gen.ion_sanitizer '\r' = some [] := by decide
+
+/-- a sanitised text is free of every character the sanitizer strips -/
+theorem san_free {t : Replacer} (ht : Replacer.isSanitizer t = true) {c : Char} (hc : Replacer.lookup t c = some [])
+    (s : Str) : c ∉ san t s := by
+  intro hm
+  have := (Replacer.mem_applyChars_sanitizer ht hm).2
+  rw [hc] at this
+  exact absurd this (by simp)
+
+/-! ### fish: `value<TAB>description` lines -/
+
+def fishLine (v : RawValue) : Str := san Gen.fish_sanitizer v.value ++ ['\t'] ++ san Gen.fish_sanitizer v.trimmed
+
+def fishExpected (v : RawValue) : Rec :=
+  { insert := san Gen.fish_sanitizer v.value, display := san Gen.fish_sanitizer v.value,
+    description := san Gen.fish_sanitizer v.trimmed }
+
+theorem fishLine_no_nl (v : RawValue) : '\n' ∉ fishLine v := by
+  simp only [fishLine, List.mem_append, List.mem_singleton, not_or]
+  exact ⟨⟨san_free fish_sanitizer_shape fish_strips.1 _, by decide⟩, san_free fish_sanitizer_shape fish_strips.1 _⟩
+
+/-- **C04 (fish).** For *any* text in value and description the consumer's parsing recovers one
+    record per candidate, each with that candidate's own (sanitised) value and trimmed description. -/
+theorem C04_fish (vs : List RawValue) :
+    decodeFish (fishFormat vs) = some { recs := vs.map fishExpected } := by
+  cases hvs : vs with
+  | nil => simp [decodeFish, fishFormat, Str.join, lines]
+  | cons v0 r =>
+    rw [← hvs]
+    have hne : vs.map fishLine ≠ [] := by simp [hvs]
+    have hfmt : fishFormat vs = Str.joinChar '\n' (vs.map fishLine) := by
+      simp only [fishFormat, nlS, Str.join_singleton]; rfl
+    have hnonempty : fishFormat vs ≠ [] := by
+      rw [hfmt]
+      intro h
+      rcases Str.joinChar_eq_nil _ _ h with h | h
+      · exact hne h
+      · rw [hvs] at h
+        simp [fishLine] at h
+    have hlines : lines (fishFormat vs) = vs.map fishLine := by
+      unfold lines
+      have : (fishFormat vs).isEmpty = false := by
+        cases hf : fishFormat vs with
+        | nil => exact absurd hf hnonempty
+        | cons _ _ => rfl
+      rw [this, hfmt]
+      simp only [Bool.false_eq_true, if_false]
+      exact Str.splitOnChar_joinChar '\n' _ hne (by
+        intro x hx
+        obtain ⟨v, _, rfl⟩ := List.mem_map.mp hx
+        exact fishLine_no_nl v)
+    simp only [decodeFish, hlines, List.map_map]
+    congr 2
+    apply List.map_congr_left
+    intro v _
+    have hcut : Str.cutChar '\t' (fishLine v) = (san Gen.fish_sanitizer v.value, some (san Gen.fish_sanitizer v.trimmed)) := by
+      unfold fishLine
+      rw [List.append_assoc]
+      exact Str.cutChar_append '\t' _ _ (san_free fish_sanitizer_shape fish_strips.2.1 _)
+    simp [Function.comp, hcut, fishExpected]
+
+/-- number of records = number of candidates (corollary) -/
+theorem C04_fish_count (vs : List RawValue) :
+    (decodeFish (fishFormat vs)).map (·.recs.length) = some vs.length := by
+  simp [C04_fish]
+
+/-! ### bash: `flag \x01 text \n text ...` -/
+
+/-- **C04 (bash framing).** whatever the texts are, as long as none contains a line feed and
+    they are not the single empty text, the consumer recovers them one by one and the flag -/
+theorem C04_bash_framing (flag : Bool) (texts : List Str) (hnl : ∀ t ∈ texts, '\n' ∉ t) (hne : texts ≠ [[]]) :
+    decodeBash (boolStr flag ++ [Char.ofNat 1] ++ Str.join nlS texts) =
+      some { recs := texts.map (fun l => { insert := l, display := l }), globalNospace := some flag } := by
+  have hflag : Char.ofNat 1 ∉ boolStr flag := by cases flag <;> decide
+  have hcut : Str.cutChar (Char.ofNat 1) (boolStr flag ++ [Char.ofNat 1] ++ Str.join nlS texts) = (boolStr flag, some (Str.join nlS texts)) := by
+    rw [List.append_assoc]
+    exact Str.cutChar_append _ _ _ hflag
+  have hj : Str.join nlS texts = Str.joinChar '\n' texts := Str.join_singleton '\n' texts
+  have hlines : lines (Str.join nlS texts) = texts := by
+    unfold lines
+    cases ht : texts with
+    | nil => simp [Str.join]
+    | cons t0 r =>
+      rw [← ht, hj]
+      have hne0 : texts ≠ [] := by simp [ht]
+      by_cases he : (Str.joinChar '\n' texts).isEmpty = true
+      · have : Str.joinChar '\n' texts = [] := by simpa using he
+        rcases Str.joinChar_eq_nil _ _ this with h | h
+        · exact absurd h hne0
+        · exact absurd h hne
+      · simp only [he, Bool.false_eq_true, if_false]
+        exact Str.splitOnChar_joinChar '\n' texts hne0 hnl
+  unfold decodeBash
+  rw [hcut]
+  simp only [hlines]
+  cases flag <;> simp [boolStr]
+
+/-- the texts bash emits in normal mode contain no line feed: the sanitizer strips it and the
+    escape tables do not introduce one (decided on the generated tables) -/
+theorem bash_tables_no_nl :
+    (∀ p ∈ Gen.bash_escapingReplacer, '\n' ∉ p.2) ∧ (∀ p ∈ Gen.bash_escapingQuotedReplacer, '\n' ∉ p.2) := by decide
+
+theorem C04_bash_no_linebreak (env : Env) (v : Str) : '\n' ∉ bashInsert env v := by
+  have hs : '\n' ∉ san Gen.bash_sanitizer v := san_free bash_sanitizer_shape bash_strips.1 v
+  unfold bashInsert
+  simp only
+  split
+  · intro h
+    rcases Replacer.mem_applyChars h with h | ⟨p, hp, hc⟩
+    · exact hs h
+    · exact bash_tables_no_nl.1 p hp hc
+  · split
+    · intro h
+      simp only [List.mem_append, List.mem_singleton] at h
+      rcases h with (h | h) | h
+      · exact absurd h (by decide)
+      · rcases Replacer.mem_applyChars h with h | ⟨p, hp, hc⟩
+        · exact hs h
+        · exact bash_tables_no_nl.2 p hp hc
+      · exact absurd h (by decide)
+    · exact hs
+
+/-! ### JSON formats: no line break in insert / display (elvish, nushell, ion) -/
+
+theorem C04_elvish_no_linebreak (m : Meta) (vs : List RawValue) :
+    ∀ r ∈ elvishRecs m vs, '\n' ∉ r.insert ∧ '\n' ∉ r.display ∧ '\r' ∉ r.insert ∧ '\r' ∉ r.display := by
+  intro r hr
+  obtain ⟨v, _, rfl⟩ := List.mem_map.mp hr
+  exact ⟨san_free elvish_sanitizer_shape elvish_strips.1 _, san_free elvish_sanitizer_shape elvish_strips.1 _,
+         san_free elvish_sanitizer_shape elvish_strips.2 _, san_free elvish_sanitizer_shape elvish_strips.2 _⟩
+
+theorem C04_nushell_display_no_linebreak (m : Meta) (vs : List RawValue) :
+    ∀ r ∈ nushellRecs m vs, '\n' ∉ r.display ∧ '\r' ∉ r.display := by
+  intro r hr
+  obtain ⟨v, _, rfl⟩ := List.mem_map.mp hr
+  exact ⟨san_free nushell_sanitizer_shape nushell_strips.1 _, san_free nushell_sanitizer_shape nushell_strips.2 _⟩
+
+/-- one record per candidate for the JSON formats (by construction of the record list) -/
+theorem C04_json_counts (m : Meta) (vs : List RawValue) :
+    (elvishRecs m vs).length = vs.length ∧ (nushellRecs m vs).length = vs.length ∧
+    (xonshRecs m vs).length = vs.length ∧ (ionRecs m vs).length = vs.length ∧
+    (powershellRecs m vs).length = (vs.filter (fun v => !v.value.isEmpty)).length := by
+  simp [elvishRecs, nushellRecs, xonshRecs, ionRecs, powershellRecs]
+
+/-! ### counterexamples on the pinned code (listed findings) -/
+
+/-- bash-ble sanitises nothing: a tab in the value shifts the fields (finding `bashble_unsanitised`) -/
+theorem C04_bashble_counterexample :
+    (decodeBashBle (bashBleFormat {} [{ value := "a\tb".toList, display := "ab".toList }])).map (·.recs.map (·.insert))
+      = some ["a".toList] := by decide
+
+/-- cmd-clink's consumer drops empty fields: an empty description shifts the append character
+    into the description slot (finding `cmdclink_empty_fields`) -/
+theorem C04_cmdclink_counterexample :
+    (decodeCmdClink (cmdClinkFormat {} [{ value := "a".toList, display := "a".toList }])).map (·.recs.map (·.description))
+      = some [" ".toList] := by decide
 
 end Carapace.Props.C04
